@@ -1,3 +1,4 @@
+mod codec;
 mod conc;
 mod crash;
 mod dbx;
@@ -14,6 +15,7 @@ fn main() {
         "hist" => hist::run(&args),
         "crash" => crash::run(&args),
         "conc" => conc::run(&args),
+        "codec" => codec::run(&args),
         "types" => types::run(&args),
         "pathfam" => search::path_family(&args),
         "fault" => fault::run(&args),
